@@ -157,9 +157,9 @@ def run_one(exe, case):
 
 
 # ---------------------------------------------------------------- generators (adapters over the other checks' generators)
-def gen_seq(rng, tier):
+def gen_seq(rng, tier, boost=1):
     import c14
-    n = 260 if tier == "quick" else 3000
+    n = (600 if tier == "quick" else 3000) * boost
     plan = [("ai", 0, 3 * n), ("as", 0, 5 * n)]
     for w in range(3):
         plan += [("s", w, 2 * n), ("t", w, 2 * n)]
@@ -182,9 +182,9 @@ def gen_seq(rng, tier):
     return c14.corpus_cases() + cases, dist
 
 
-def gen_value(rng, tier):
+def gen_value(rng, tier, boost=1):
     import c12
-    n = 2500 if tier == "quick" else 40000
+    n = (6000 if tier == "quick" else 40000) * boost
     cases = []
     for i in range(n):
         ops = c12.gen_history(rng, 12 if i % 3 == 0 else 50)
@@ -193,7 +193,7 @@ def gen_value(rng, tier):
     return corp + cases, {"value_histories": n, "value_corpus": len(corp)}
 
 
-def gen_htab(rng, tier):
+def gen_htab(rng, tier, boost=1):
     import c13
     # collision alphabets need the implementation's hash: taken from the plain C13 driver when it builds
     groups, hashes = {}, {}
@@ -205,7 +205,7 @@ def gen_htab(rng, tier):
             if o.isdigit():
                 hashes[k] = int(o)
         groups = c13.collision_groups(hashes)
-    n = 2500 if tier == "quick" else 30000
+    n = (6000 if tier == "quick" else 30000) * boost
     cases = []
     dist = {"htab_inst0": 0, "htab_inst1": 0, "htab_inst2": 0}
     for _ in range(n):
@@ -220,15 +220,15 @@ def gen_htab(rng, tier):
     return corp + cases, dist
 
 
-def gen_json(rng, tier):
+def gen_json(rng, tier, boost=1):
     import jsoncommon as jc
     cases = []
     dist = {"json_text": 0, "json_valid": 0, "json_damaged": 0, "json_tree": 0}
-    for _ in range(2500 if tier == "quick" else 60000):
+    for _ in range((6000 if tier == "quick" else 60000) * boost):
         w = rng.randrange(4)
         cases.append("P %d %s" % (w, fmt_list(jc.gen_text(rng, w))))
         dist["json_text"] += 1
-    for _ in range(60 if tier == "quick" else 1500):
+    for _ in range((150 if tier == "quick" else 1500) * boost):
         w = rng.randrange(4)
         v, out = jc.gen_doc(rng, w, maxlen=rng.choice([30, 60, 200]))
         cases.append("P %d %s" % (w, fmt_list(jc.gen_ws(rng) + out.u + jc.gen_ws(rng))))
@@ -237,7 +237,7 @@ def gen_json(rng, tier):
         for c, tag in jc.damaged_cases(rng, w, out, full=len(out.u) <= 80):
             cases.append("P" + c[1:])
             dist["json_damaged"] += 1
-    for _ in range(400 if tier == "quick" else 8000):
+    for _ in range((1000 if tier == "quick" else 8000) * boost):
         cases.append(jc.s_case(rng, rng.randrange(4), True))
         dist["json_tree"] += 1
     corp = []
@@ -272,10 +272,10 @@ def _tmpl_texts(rng, n):
     return out, dist
 
 
-def gen_tmpl(rng, tier):
+def gen_tmpl(rng, tier, boost=1):
     import tmplgen as g
     import tparse
-    texts, dist = _tmpl_texts(rng, 2200 if tier == "quick" else 40000)
+    texts, dist = _tmpl_texts(rng, (5000 if tier == "quick" else 40000) * boost)
     cases = []
     for t in texts:
         cases.append(g.case_line(rng.choice([0, 0, 1, 2, 3]), rng.choice([0, 1]), t, g.gen_root(rng)))
@@ -333,9 +333,9 @@ def gen_cache_script(rng, nops):
     return ops
 
 
-def gen_cache(rng, tier):
+def gen_cache(rng, tier, boost=1):
     import tmplgen as g
-    n = 1500 if tier == "quick" else 25000
+    n = (5000 if tier == "quick" else 25000) * boost
     texts, dist0 = _tmpl_texts(rng, 2 * n)
     cases = []
     for k in range(n):
@@ -444,7 +444,9 @@ def proof_stage(rep):
         return res
     okm, mlog = vlib.coq_make([PROP_V + "o"])
     res["log"] = mlog[-5000:]
-    audit = vlib.coq_audit()
+    # the audit covers the files Properties_C16.v is built from (other components' files are audited by their own checks;
+    # Print Assumptions below is the kernel's own answer for these theorems)
+    audit = [a for a in vlib.coq_audit() if a.startswith(("coq/Seq", "coq/Ledger", "coq/Properties_C16", "coq/Properties_C14"))]
     if audit:
         res["log"] += "\nAUDIT: forbidden constructs:\n" + "\n".join(audit)
         okm = False
@@ -486,6 +488,8 @@ def check(tier):
         rep.cov = base_cov
         return rep.finish()
 
+    # protocol: when the proof side is broken and no failing input is known yet, the search is enlarged
+    boost = 1 if proof_ok else 4
     dist = {}
     per_family = {}
     total = 0
@@ -496,7 +500,7 @@ def check(tier):
     for fam, gen in GENS:
         exe = exes[fam][0]
         frng = random.Random(rng.randrange(1 << 30))
-        cases, d = gen(frng, tier)
+        cases, d = gen(frng, tier, boost)
         cases = [c for (f, c) in corp if f == fam] + cases
         dist.update(d)
         results, reports = run_ledger(exe, cases)
